@@ -38,10 +38,6 @@ def cond_worlds(tier):
     )
 
 
-def prepare(sim, world):
-    pass
-
-
 def execute(spec):
     from pbt import simrun
     from pbt.runner import CaseResult
